@@ -1,11 +1,216 @@
-//! Independent RFC 9380 hash-to-curve for BLS12-381 (placeholder: not available yet; callers fall back).
+//! Independent RFC 9380 hash-to-curve for BLS12-381: suites BLS12381G1_XMD:SHA-256_SSWU_RO_ and
+//! BLS12381G2_XMD:SHA-256_SSWU_RO_ (expand_message_xmd over the harness' own SHA-256, hash_to_field,
+//! simplified SWU on the isogenous curve, isogeny map, point addition, cofactor clearing by h_eff).
+//! Written from the RFC's pseudo-code in its straight-line textbook form over `refcrypto` fields.
 
-use crate::model::refcrypto::{F1, F2, Pt};
+use crate::model::h2c_consts as k;
+use crate::model::refcrypto::{self as rc, Curve, F1, F2, Field, Pt};
+use crate::model::refhash::sha256;
+use num_bigint::BigUint;
+use num_traits::Zero;
 
-pub fn hash_to_g1(_msg: &[u8], _dst: &[u8]) -> Option<Pt<F1>> {
-    None
+fn hx(s: &str) -> BigUint {
+    BigUint::parse_bytes(s.as_bytes(), 16).expect("hex")
 }
 
-pub fn hash_to_g2(_msg: &[u8], _dst: &[u8]) -> Option<Pt<F2>> {
-    None
+/// RFC 9380 section 5.3.1
+pub fn expand_message_xmd(msg: &[u8], dst: &[u8], len: usize) -> Option<Vec<u8>> {
+    let ell = len.div_ceil(32);
+    if ell > 255 || len > 65535 {
+        return None;
+    }
+    let long;
+    let dst: &[u8] = if dst.len() > 255 {
+        long = sha256(&[b"H2C-OVERSIZE-DST-", dst]);
+        &long
+    } else {
+        dst
+    };
+    let mut dst_prime = dst.to_vec();
+    dst_prime.push(dst.len() as u8);
+    let z_pad = [0u8; 64];
+    let lib = [(len >> 8) as u8, len as u8];
+    let b0 = sha256(&[&z_pad, msg, &lib, &[0u8], &dst_prime]);
+    let mut b = sha256(&[&b0, &[1u8], &dst_prime]);
+    let mut out = b.to_vec();
+    for i in 2..=ell {
+        let mut x = [0u8; 32];
+        for j in 0..32 {
+            x[j] = b0[j] ^ b[j];
+        }
+        b = sha256(&[&x, &[i as u8], &dst_prime]);
+        out.extend_from_slice(&b);
+    }
+    out.truncate(len);
+    Some(out)
+}
+
+fn sgn0_1(x: &F1) -> bool {
+    x.v.bit(0)
+}
+
+fn sgn0_2(x: &F2) -> bool {
+    let s0 = x.c0.v.bit(0);
+    let z0 = x.c0.v.is_zero();
+    let s1 = x.c1.v.bit(0);
+    s0 || (z0 && s1)
+}
+
+/// simplified SWU (RFC 9380 section 6.6.2) for y^2 = x^3 + A x + B with A*B != 0
+fn sswu<F: Field>(u: &F, a: &F, b: &F, z: &F, sgn0: fn(&F) -> bool) -> (F, F) {
+    let u2 = u.sqr();
+    let zu2 = z.mul(&u2);
+    let tv = zu2.sqr().add(&zu2); // Z^2 u^4 + Z u^2
+    let x1 = if tv.is_zero() {
+        // x1 = B / (Z A)
+        b.mul(&z.mul(a).inv())
+    } else {
+        // x1 = (-B / A) (1 + 1/tv)
+        b.neg().mul(&a.inv()).mul(&tv.inv().add(&u.one_like()))
+    };
+    let g = |x: &F| x.sqr().mul(x).add(&a.mul(x)).add(b);
+    let gx1 = g(&x1);
+    let (x, mut y) = match gx1.sqrt() {
+        Some(y) => (x1, y),
+        None => {
+            let x2 = zu2.mul(&x1);
+            let y = g(&x2).sqrt().expect("gx2 is square when gx1 is not");
+            (x2, y)
+        }
+    };
+    if sgn0(u) != sgn0(&y) {
+        y = y.neg();
+    }
+    (x, y)
+}
+
+fn horner<F: Field>(coeffs: &[F], x: &F, monic: bool) -> F {
+    let mut acc = if monic { x.one_like() } else { x.zero_like() };
+    for c in coeffs.iter().rev() {
+        acc = acc.mul(x).add(c);
+    }
+    acc
+}
+
+fn f1(s: &str) -> F1 {
+    F1::new(hx(s), rc::bls().p)
+}
+
+fn f2s(v: &[&str]) -> Vec<F2> {
+    v.chunks(2).map(|c| F2 { c0: f1(c[0]), c1: f1(c[1]) }).collect()
+}
+
+fn iso1(p: &(F1, F1)) -> Pt<F1> {
+    let (x, y) = p;
+    let xn = horner(&k::G1_XNUM.iter().map(|s| f1(s)).collect::<Vec<_>>(), x, false);
+    let xd = horner(&k::G1_XDEN.iter().map(|s| f1(s)).collect::<Vec<_>>(), x, true);
+    let yn = horner(&k::G1_YNUM.iter().map(|s| f1(s)).collect::<Vec<_>>(), x, false);
+    let yd = horner(&k::G1_YDEN.iter().map(|s| f1(s)).collect::<Vec<_>>(), x, true);
+    if xd.is_zero() || yd.is_zero() {
+        return None; // exceptional case: the point at infinity
+    }
+    Some((xn.mul(&xd.inv()), y.mul(&yn).mul(&yd.inv())))
+}
+
+fn iso2(p: &(F2, F2)) -> Pt<F2> {
+    let (x, y) = p;
+    let xn = horner(&f2s(&k::G2_XNUM), x, false);
+    let xd = horner(&f2s(&k::G2_XDEN), x, true);
+    let yn = horner(&f2s(&k::G2_YNUM), x, false);
+    let yd = horner(&f2s(&k::G2_YDEN), x, true);
+    if xd.is_zero() || yd.is_zero() {
+        return None;
+    }
+    Some((xn.mul(&xd.inv()), y.mul(&yn).mul(&yd.inv())))
+}
+
+fn field_elems(msg: &[u8], dst: &[u8], count: usize) -> Option<Vec<F1>> {
+    let bytes = expand_message_xmd(msg, dst, count * 64)?;
+    Some(bytes.chunks(64).map(|c| F1::new(BigUint::from_bytes_be(c), rc::bls().p)).collect())
+}
+
+pub fn hash_to_g1(msg: &[u8], dst: &[u8]) -> Option<Pt<F1>> {
+    let c = rc::bls();
+    let u = field_elems(msg, dst, 2)?;
+    let a = f1(k::G1_A[0]);
+    let b = f1(k::G1_B[0]);
+    let z = F1::new(BigUint::from(11u32), c.p);
+    let q0 = iso1(&sswu(&u[0], &a, &b, &z, sgn0_1));
+    let q1 = iso1(&sswu(&u[1], &a, &b, &z, sgn0_1));
+    let r = c.e1.add(&q0, &q1);
+    // clear_cofactor: h_eff = 0xd201000000010001
+    Some(c.e1.mul(&r, &hx("d201000000010001")))
+}
+
+pub fn hash_to_g2(msg: &[u8], dst: &[u8]) -> Option<Pt<F2>> {
+    let c = rc::bls();
+    let e = field_elems(msg, dst, 4)?;
+    let u0 = F2 { c0: e[0].clone(), c1: e[1].clone() };
+    let u1 = F2 { c0: e[2].clone(), c1: e[3].clone() };
+    let zero = F1::new(BigUint::zero(), c.p);
+    let a = F2 { c0: zero.clone(), c1: F1::new(BigUint::from(240u32), c.p) };
+    let b = F2 { c0: F1::new(BigUint::from(1012u32), c.p), c1: F1::new(BigUint::from(1012u32), c.p) };
+    // Z = -(2 + I)
+    let z = F2 { c0: F1::new(BigUint::from(2u32), c.p).neg(), c1: F1::new(BigUint::from(1u32), c.p).neg() };
+    let q0 = iso2(&sswu(&u0, &a, &b, &z, sgn0_2));
+    let q1 = iso2(&sswu(&u1, &a, &b, &z, sgn0_2));
+    let r = c.e2.add(&q0, &q1);
+    let h_eff = hx("bc69f08f2ee75b3584c6a0ea91b352888e2a8e9145ad7689986ff031508ffe1329c2f178731db956d82bf015d1212b02ec0ec69d7477c1ae954cbc06689f6a359894c0adebbf6b4e8020005aaa95551");
+    Some(c.e2.mul(&r, &h_eff))
+}
+
+/// the maps built from the constants send points of E' onto E, and hashed points are finite members of the subgroups
+pub fn self_test() -> Result<(), String> {
+    let c = rc::bls();
+    // G1: a point on E'
+    let a = f1(k::G1_A[0]);
+    let b = f1(k::G1_B[0]);
+    let e1p = Curve { a: a.clone(), b: b.clone() };
+    let mut x = F1::new(BigUint::from(5u32), c.p);
+    let p1 = loop {
+        let rhs = x.sqr().mul(&x).add(&a.mul(&x)).add(&b);
+        if let Some(y) = rhs.sqrt() {
+            break (x.clone(), y);
+        }
+        x = x.add(&x.one_like());
+    };
+    if !e1p.on_curve(&Some(p1.clone())) || !c.e1.on_curve(&iso1(&p1)) {
+        return Err("11-isogeny does not map E1' onto E1".into());
+    }
+    let zero = F1::new(BigUint::zero(), c.p);
+    let a2 = F2 { c0: zero.clone(), c1: F1::new(BigUint::from(240u32), c.p) };
+    let b2 = F2 { c0: F1::new(BigUint::from(1012u32), c.p), c1: F1::new(BigUint::from(1012u32), c.p) };
+    let mut x = F2 { c0: F1::new(BigUint::from(3u32), c.p), c1: F1::new(BigUint::from(1u32), c.p) };
+    let p2 = loop {
+        let rhs = x.sqr().mul(&x).add(&a2.mul(&x)).add(&b2);
+        if let Some(y) = rhs.sqrt() {
+            break (x.clone(), y);
+        }
+        x = x.add(&x.one_like());
+    };
+    if !c.e2.on_curve(&iso2(&p2)) {
+        return Err("3-isogeny does not map E2' onto E2".into());
+    }
+    let h1 = hash_to_g1(b"abc", b"QUUX-V01-CS02-with-BLS12381G1_XMD:SHA-256_SSWU_RO_").ok_or("h1")?;
+    if h1.is_none() || !c.e1.on_curve(&h1) || c.e1.mul(&h1, &c.r).is_some() {
+        return Err("hash_to_g1 output is not a finite subgroup point".into());
+    }
+    let h2 = hash_to_g2(b"abc", b"QUUX-V01-CS02-with-BLS12381G2_XMD:SHA-256_SSWU_RO_").ok_or("h2")?;
+    if h2.is_none() || !c.e2.on_curve(&h2) || c.e2.mul(&h2, &c.r).is_some() {
+        return Err("hash_to_g2 output is not a finite subgroup point".into());
+    }
+    // RFC 9380 appendix J.9.1, msg = "abc": P.x
+    let want = hx("03567bc5ef9c690c2ab2ecdf6a96ef1c139cc0b2f284dca0a9a7943388a49a3aee664ba5379a7655d3c68900be2f6903");
+    if h1.as_ref().map(|p| p.0.v.clone()) != Some(want) {
+        return Err("hash_to_g1(\"abc\") differs from the RFC 9380 test vector".into());
+    }
+    Ok(())
+}
+
+#[cfg(test)]
+mod tests {
+    #[test]
+    fn h2c_self_test() {
+        super::self_test().unwrap();
+    }
 }
